@@ -1059,3 +1059,42 @@ REFACTORS += [
     /// Flush and optionnally fsync data
     pub fn persist(""")]),
 ]
+
+MUTANTS += [
+    dict(name='record_handle_always_taken', props=['C01', 'C06'], rules=['FH1'], desc='append_record moves the previous record\'s handle to the new record even when the file differs',
+         edits=[(Q, """            if record_meta.file_number.as_ref() == Some(file_number) {
+                record_meta.file_number.take().unwrap()
+            } else {
+                file_number.clone()
+            }""", """            record_meta.file_number.take().unwrap_or_else(|| file_number.clone())""")]),
+    dict(name='frame_reader_swallows_corruption', props=['C08', 'C02', 'C12'], rules=['FR8b'], desc='read_frame loops to the next block when the header is unparseable instead of reporting Corruption',
+         edits=[(FRD, """        self.go_to_next_block_if_necessary()?;
+        let header = self.get_frame_header()?;
+        self.cursor += HEADER_LEN;""", """        let header = loop {
+            self.go_to_next_block_if_necessary()?;
+            match self.get_frame_header() {
+                Err(ReadFrameError::Corruption) => continue,
+                header_res => break header_res?,
+            }
+        };
+        self.cursor += HEADER_LEN;""")]),
+    dict(name='valid_first_frame_reported_as_corruption', props=['C02', 'C09', 'C03'], rules=['REC6'], desc='go_next returns Corruption when a First frame arrives while an entry is open (the valid frame is dropped)',
+         edits=[(RRD, """                    if frame_type.is_first_frame_of_record() {
+                        self.within_record = true;""", """                    if frame_type.is_first_frame_of_record() {
+                        if self.within_record {
+                            self.within_record = false;
+                            return Err(ReadRecordError::Corruption);
+                        }
+                        self.within_record = true;""")]),
+    dict(name='io_error_downgraded_when_assembling', props=['C11'], rules=['ERR1'], desc='go_next reports an I/O error as Corruption when it hits while an entry is being assembled',
+         edits=[(RRD, """                Err(ReadFrameError::IoError(io_err)) => {
+                    self.within_record = false;
+                    return Err(ReadRecordError::IoError(io_err));""", """                Err(ReadFrameError::IoError(io_err)) => {
+                    if self.within_record {
+                        self.within_record = false;
+                        return Err(ReadRecordError::Corruption);
+                    }
+                    return Err(ReadRecordError::IoError(io_err));""")]),
+    dict(name='open_file_creates_missing', props=['C11', 'C17'], rules=['ERR3'], desc='open_file opens with create(true): a listed file that went missing is recreated empty',
+         edits=[(DIR, 'OpenOptions::new().read(true).write(true).open(filepath)?;', 'OpenOptions::new().read(true).write(true).create(true).truncate(false).open(filepath)?;')]),
+]
